@@ -64,7 +64,7 @@ def run_mutant(repo, prop, kind, m):
     base = [BIN, "-repo", repo, "-verif", VERIF, "-prop", prop, "-tier", "quick", "-no-evidence"]
     tmp = None
     if kind == "anchored":
-        cmd = base + ["-overlay", "%s|%s|%s" % (m["file"], m["old"], m["new"])]
+        cmd = base + ["-overlay", json.dumps([m["file"], m["old"], m["new"]])]
     else:
         tmp = overlay_dir_for_patch(repo, m["patch"])
         if tmp is None:
